@@ -19,6 +19,10 @@
      c04_tc_on_the_octets        (third wave, composition with C12's round trip) clause (ii) on the FINISHED OCTETS,
                                  for every zone built by adds: the RFC 1035 decoder finds TC set only over UDP, and
                                  then no answer / authority record and nothing but the OPT in the additional section
+     c04_glue_complete_partial   (third wave) the glue half of clause (iv), unary: a direct referral whose answering
+                                 logic succeeded (so: neither TC nor an error SERVFAIL) carries, on the finished octets,
+                                 the NS RRset and — first in the additional section — EVERY address record the zone
+                                 holds for the name servers at/below the delegated zone
    What is NOT proved and is decided per case by the extracted oracle [pair_check] (Spec/RespS.v) on
    the real server's two responses to every generated request: clause (iii) for answers that end in
    SERVFAIL (false there: finding C04-1), clause (iv) "otherwise a TC-clear UDP response differs only
@@ -27,7 +31,7 @@
 From QV Require Import Base.Res Base.Octets Model.MsgWriter Model.ZoneTree Model.Query Model.QueryW
   Proofs.MsgWriterInvP Proofs.QueryWP Proofs.ServerLimitP Proofs.WriterMonoP Proofs.QueryMonoP Spec.MsgWriterS Spec.RespS.
 From QV Require Model.Server Spec.NameRepr.
-From QV Require Import Spec.ZoneLookupS Proofs.ComposeTraceP Proofs.ComposeTcP.
+From QV Require Import Spec.ZoneLookupS Spec.MsgWriterAbsS Proofs.MsgWriterDecP Proofs.ComposeTraceP Proofs.ComposeTcP Proofs.ComposeGlueP.
 
 Theorem c04_response_within_limit : forall negttl buf tcp id rd qname qtype qclass edns limit z len b,
   respond_w negttl buf tcp id rd qname qtype qclass edns limit z = Some (len, b) ->
@@ -214,6 +218,62 @@ Theorem c04_tc_on_the_octets : forall reqf apex cls wide recs z negttl buf tcp i
     (tc_bit m = true -> m_an m = [] /\ m_ns m = [] /\ forallb is_pseudo (m_ar m) = true).
 Proof. exact respond_w_tc_build. Qed.
 
+(* The glue half of clause (iv) ("never by in-bailiwick referral glue"), in unary form.  For every zone built by adds and
+   every question (QTYPE other than ANY) that the zone answers with a referral (the lookup reports LReferral child ns):
+   respond_w returns a message that decodes, and IF the answering logic (do_referral on the prepared writer) succeeded —
+   then the response is TC-clear and not an error SERVFAIL (c04_tc_shape, handle_non_axfr_query) — the decoded authority
+   section is the NS RRset of the delegation and the decoded additional section BEGINS WITH every address record
+   ([glue_rrs]: for each NS target at/below the child, in RDATA order, the A RRset and, in class IN, the AAAA RRset that
+   Zone::lookup_addrs reports with search_below_cuts) — whatever the transport, the limit and the EDNS settings.  What may
+   be missing for lack of space are only records after them (the other name servers' addresses, added under
+   execute_allowing_truncation).  PARTIAL with respect to clause (iv): no comparison with the TCP response; referrals
+   reached through a CNAME chain or by QTYPE ANY are not covered (same argument, not done). *)
+Theorem c04_glue_complete_partial : forall reqf apex cls wide recs z negttl buf tcp id rd qname qtype qclass edns limit child ns,
+  (forall c t a b d, reqf c t a b = true -> reqf c t b d = true -> reqf c t a d = true) ->
+  zone_build reqf (zone_new apex cls wide) recs = Some z ->
+  Forall (fun r => good_rd (r_rdata r) /\ (r_type r < 65536)%N) recs -> good_name apex -> (cls < 65536)%N ->
+  512 <= length buf -> good_name qname -> in_zone apex qname = true ->
+  (id < 65536)%N -> (qtype < 65536)%N -> (qclass < 65536)%N -> (forall s, edns = Some s -> (s < 65536)%N) ->
+  (qtype =? QTYPE_ANY)%N = false ->
+  zone_lookup z qname qtype true false = Ok (LReferral child ns) ->
+  exists w len b m,
+    prepare_w buf tcp id rd qname qtype qclass edns limit = Some w /\
+    respond_w negttl buf tcp id rd qname qtype qclass edns limit z = Some (len, b) /\
+    decode_msg (firstn len b) = Some m /\
+    match do_referral w_iface z child ns w with
+    | Ok _ =>
+      exists ds_ns ds_glue ds_other,
+        m_ns m = ds_ns /\
+        Forall2 (rr_rel xparts) (map (mkAR child Standard Gen.ZoneConsts.TYPE_NS (z_class z) (ttl_rfc (fst ns))) (snd ns)) ds_ns /\
+        m_ar m = ds_glue ++ ds_other /\
+        Forall2 (rr_rel xparts) (glue_rrs z child (snd ns)) ds_glue
+    | _ => True
+    end.
+Proof. exact respond_referral_glue_build. Qed.
+
+(* Non-vacuity: zone a. with the delegation sub.a. NS ns.sub.a. / NS ns.other. and the glue ns.sub.a. A 5.6.7.8:
+   the lookup of x.sub.a. is a referral, its glue list is that one A record, and do_referral succeeds in 512 octets. *)
+Definition ex_recs4 : list record :=
+  [mk_record [[115;117;98];[97]]%N 2 1 60 [2;110;115;3;115;117;98;1;97;0]%N;
+   mk_record [[115;117;98];[97]]%N 2 1 60 [2;110;115;5;111;116;104;101;114;0]%N;
+   mk_record [[110;115];[115;117;98];[97]]%N 1 1 60 [5;6;7;8]%N].
+Example c04_glue_example :
+  match zone_build req_simple (zone_new [[97]]%N 1 false) ex_recs4 with
+  | Some z =>
+    match zone_lookup z [[120];[115;117;98];[97]]%N 1 true false with
+    | Ok (LReferral child ns) =>
+      glue_rrs z child (snd ns) = [mkAR [[110;115];[115;117;98];[97]]%N Standard 1 1 60 [5;6;7;8]%N] /\
+      match prepare_w (repeat 0%N 512) false 7 false [[120];[115;117;98];[97]]%N 1 1 None 512 with
+      | Some w => match do_referral w_iface z child ns w with Ok _ => True | _ => False end
+      | None => False
+      end
+    | _ => False
+    end
+  | None => False
+  end.
+Proof. vm_compute. split; [reflexivity|exact I]. Qed.
+
+Print Assumptions c04_glue_complete_partial.
 Print Assumptions c04_tc_on_the_octets.
 Print Assumptions c04_response_within_limit.
 Print Assumptions c04_tc_shape.
